@@ -257,7 +257,7 @@ func (l *queue) Empty() bool {
 	if l.head == nil || l.tail == nil || len(l.segments) == 0 {
 		return true
 	}
-	if l.head == l.tail && l.head.pos == l.tail.filePos()-footerSize {
+	if l.head == l.tail && l.head.empty() {
 		return true
 	}
 	return false
@@ -773,6 +773,14 @@ func (l *segment) advance() error {
 	}
 
 	return nil
+}
+
+// empty returns true if the segment has no block left to read, neither on disk
+// nor buffered for the next flush.
+func (l *segment) empty() bool {
+	l.mu.RLock()
+	defer l.mu.RUnlock()
+	return l.pos == l.size-footerSize && (l.buf == nil || l.buf.Len() == 0)
 }
 
 func (l *segment) close() error {
